@@ -242,8 +242,8 @@ def litPieces (n : String) : Option (List Piece) :=
   | ["l", v] =>
     if v.startsWith "-" then
       (natOfDec? (v.drop 1).toString).map fun k =>
-        -- the lexer reads the digits as u64 and casts to i64: 2^63 wraps to i64::MIN
-        let name := if k ≥ 2 ^ 63 then "l -" ++ toString (2 ^ 64 - k) else "l " ++ toString k
+        -- since dc17362 an `l` literal that does not fit in i64 is a lexer error (before: wrapped to i64::MIN)
+        let name := if k ≥ 2 ^ 63 then "l!too-large" else "l " ++ toString k
         [.t (.p .Minus) "-", .t (.lit name) (toString k ++ "l")]
     else (natOfDec? v).map fun k => [.t (.lit ("l " ++ toString k)) (toString k ++ "l")]
   | ["f32", v] =>
@@ -265,12 +265,20 @@ def litPieces (n : String) : Option (List Piece) :=
   | ["f64", v] =>
     match (hexVal? v).bind (eighths? 11 52) with
     | some (neg, q) =>
+      -- since 8468e83 whole values print as `N.0L` (before: `NL`, which reads back as a 64-bit integer)
+      let text := if q % 8 == 0 then toString (q / 8) ++ ".0L" else fracText q ++ "L"
       let bits := (hexVal? v).getD 0 % 2 ^ 63
-      -- `{v}L`: an integral value prints without a fraction and reads back as a 64-bit integer
-      let tok : Piece :=
-        if q % 8 == 0 then .t (.lit ("l " ++ toString (q / 8))) (toString (q / 8) ++ "L")
-        else .t (.lit ("f64 0x" ++ hexDigits 16 bits)) (fracText q ++ "L")
-      some (if neg then [.t (.p .Minus) "-", tok] else [tok])
+      let tok : Piece := .t (.lit ("f64 0x" ++ hexDigits 16 bits)) text
+      some (if neg && q != 0 then [.t (.p .Minus) "-", tok] else [tok])
+    | none => none
+  | ["h", v] =>
+    -- Float16 literals carry an f32; whole values print as `N.0h` since 8468e83
+    match (hexVal? v).bind (eighths? 8 23) with
+    | some (neg, q) =>
+      let text := if q % 8 == 0 then toString (q / 8) ++ ".0h" else fracText q ++ "h"
+      let bits := (hexVal? v).getD 0 % 2 ^ 31
+      let tok : Piece := .t (.lit ("h 0x" ++ hexDigits 8 bits)) text
+      some (if neg && q != 0 then [.t (.p .Minus) "-", tok] else [tok])
     | none => none
   | _ => none
 
